@@ -117,6 +117,12 @@ def scenarios(tier, seed=0):
             for h in ("03/05", "03/01", "02/29" if False else "02/28"):
                 out.append(mk("02/01", 40, start, end, off, harvest=h))
         out.append(mk("12/20", 40 if not q else 18, D(2002, 12, 20), D(2005, 3, 30), off, harvest="03/02" if not q else "01/05"))
+    # the end date falls on the planting month/day of a later year (no season may start on the end date itself), and one day either side
+    for off in (False, True):
+        for planting, L in (("05/01", 18), ("12/20", 7)):
+            mm, dd = (int(x) for x in planting.split("/"))
+            for delta in (-1, 0, 1):
+                out.append(mk(planting, L, D(2001, mm, dd) - dt.timedelta(days=2), D(2003, mm, dd) + dt.timedelta(days=delta), off))
     # stepping styles
     styles = ["till", "step1", "chunk2", "chunk3", "chunk7", "chunk1000"]
     for style in styles:
